@@ -195,8 +195,8 @@ theorem gas_not_denser (n : ℕ) (T P Zg Zl : ℝ) (y M vt : ℕ → ℝ) (hT : 
 Fortran transcription by `Props.C08.pair_full_*`).  The theorems above are about `Model.Eos`; the two theorems
 below carry them over to the regenerated definitions, so that a change of dbm_p.coefs / z_pr that invalidates
 the hand model breaks a proof here (and not only the value correspondence of the harness).
-Partial: the group-contribution branch (calc_delta > 0: in-place double loop over the δ matrix) is not refined;
-there the tie of `Model.Eos.deltaUsed` to the code is the correspondence run. -/
+The group-contribution branch (calc_delta > 0: in-place double loop over the δ matrix) is refined in
+`Props/C01GC.lean` (`coefs_refines_gc`, closed form of the nested fold in `Lemmas/EosRefineGC.lean`). -/
 
 /-- **Refinement (group contributions off)**: every output of the `coefs` regenerated from dbm_p.py equals the
     corresponding output of the hand model `Model.Eos.coefs`, for all inputs of consistent lengths. -/
